@@ -8,28 +8,30 @@ package engine
 
 import (
 	"fmt"
+	"path/filepath"
 
 	"github.com/mk6i/mkdb/storage"
 	"verif/lib"
 )
 
 type histCfg struct {
-	Name        string
-	Opt         worldOpt
-	Seed        string
-	Alpha       alphaOpt
-	Depth       int
-	TickChoice  bool // after every statement: choose "no tick" / "tick"
-	Reopen      bool // event: clean shutdown (Session.Close) + restart
-	Reselect    bool // event: USE d again (the store is closed and opened again; no recovery runs)
-	Crash       bool // event: crash + recovery (cost 1 against the crash bound)
-	FinalCrash  bool // every fresh history ends with crash + double recovery + check
-	FinalReopen bool // every fresh history ends with clean shutdown + restart + check (pages re-read from disk)
-	Walk        bool // run the tree walker after every fresh event
-	OnlyWalk    bool // judge only the walker (and crashes/hangs of tree code); other oracles belong to other properties
-	CacheAfterSeed int // > 0: once the seed is built and flushed, the page cache is replaced by an empty one of this capacity and every statement is followed by a timer flush
-	TickInStmt  bool // C04: the timer may fire while one more DML statement is between its page changes and its log append
-	AltSchemas  bool // the tables t1, t2, t3 are declared with other columns than in every other config (same names)
+	Name           string
+	Opt            worldOpt
+	Seed           string
+	Alpha          alphaOpt
+	Depth          int
+	TickChoice     bool // after every statement: choose "no tick" / "tick"
+	Reopen         bool // event: clean shutdown (Session.Close) + restart
+	Reselect       bool // event: USE d again (the store is closed and opened again; no recovery runs)
+	Crash          bool // event: crash + recovery (cost 1 against the crash bound)
+	FinalCrash     bool // every fresh history ends with crash + double recovery + check
+	FinalReopen    bool // every fresh history ends with clean shutdown + restart + check (pages re-read from disk)
+	Walk           bool // run the tree walker after every fresh event
+	OnlyWalk       bool // judge only the walker (and crashes/hangs of tree code); other oracles belong to other properties
+	CrashInCreate  bool // event: CREATE TABLE t3, crash inside its final flush with every page written and the header not (cost 1 against the crash bound); a table that is there in full afterwards is adopted
+	CacheAfterSeed int  // > 0: once the seed is built and flushed, the page cache is replaced by an empty one of this capacity and every statement is followed by a timer flush
+	TickInStmt     bool // C04: the timer may fire while one more DML statement is between its page changes and its log append
+	AltSchemas     bool // the tables t1, t2, t3 are declared with other columns than in every other config (same names)
 }
 
 // altSchemas: the same table names as worldSchemas with different column lists
@@ -209,11 +211,14 @@ func histBody(cfgs []histCfg, crashBound int) lib.Body {
 			if cfg.Crash && crashes < crashBound {
 				extra = append(extra, "crash")
 			}
+			if _, has := w.model.Tables["t3"]; cfg.CrashInCreate && !has && crashes < crashBound {
+				extra = append(extra, "crash-in-create")
+			}
 			var cost []int
 			if len(extra) > 0 {
 				cost = make([]int, n+len(extra))
 				for i, e := range extra {
-					if e == "crash" {
+					if e == "crash" || e == "crash-in-create" {
 						cost[n+i] = 1
 					}
 				}
@@ -260,6 +265,43 @@ func histBody(cfgs []histCfg, crashBound int) lib.Body {
 						return
 					}
 					c.Tag("reselect")
+				case "crash-in-create":
+					// CREATE TABLE t3 dies inside its final flush: every page of the flush is on disk, the header is not
+					crashes++
+					tbl := filepath.Join("data", "d", "tbl")
+					base := w.image()
+					cs := mkCreate("t3", worldSchemas["t3"])
+					c.Logf("%s   <- CRASH inside this statement's flush: pages written, header not", cs.SQL)
+					w.capture, w.writes = true, nil
+					err := w.exec(cs.SQL)
+					w.capture = false
+					if err != nil {
+						w.failErr("statement-failed", cs.SQL, err)
+						return
+					}
+					segs := segments(w.writes, tbl)
+					if len(segs) == 0 {
+						c.Tag("crash-in-create:no-flush-captured")
+						return
+					}
+					last := len(segs) - 1
+					img := applyTorn(base, tbl, segs, tornChoice{seg: last, subset: uint(1)<<uint(len(segs[last].pages)) - 1, npages: len(segs[last].pages)})
+					img[filepath.Join("data", "d", "wal")] = base[filepath.Join("data", "d", "wal")]
+					w = w.recoverFrom(img, false)
+					c.Tag("crash-in-create")
+					c.NonTrivial()
+					if c.Failed() {
+						return
+					}
+					if w.tableComplete("t3") {
+						c.Logf("table t3 of the interrupted CREATE TABLE exists completely: adopted")
+						cs.apply(w.model, -1)
+						c.Tag("crash-in-create:adopted")
+					} else {
+						// (whether a half-made table may stay behind is C04's question; this history ends here)
+						c.Tag("crash-in-create:table-not-complete")
+						return
+					}
 				case "crash":
 					c.Logf("CRASH")
 					crashes++
